@@ -256,6 +256,33 @@ def run_cell(cell, seed):
                 fails.append({"sub": "prior-mode", "symptom": f"covariance under prior_mode ({when}) != prior covariance: err={msg}", "detail": "", "features": f2})
         except Exception as e:
             fails.append({"sub": "prior-mode", "symptom": util.exc_str(e), "detail": "", "features": f2})
+    # "the conditional of its own prior on the training data": the data the model holds NOW. After a prediction the training inputs / targets /
+    # both are replaced (same shapes) through set_train_data and the next prediction is compared with the closed form on the new data.
+    if fam in ("exact", "fixednoise_learn") and not cell.get("form") and not cell.get("yb") and not mt:
+        g2 = util.gen(seed, "c01|newdata|" + util.jdump({k: cell[k] for k in ("shape", "trb")}))
+        X2, y2 = X + 0.3 * util.rand(g2, *X.shape), y + util.randn(g2, *y.shape)
+        for which in ("inputs", "targets", "both"):
+            f2 = dict(feats, settings="set_train_data:" + which, nsw=1)
+            Xn, yn = (X2 if which != "targets" else X), (y2 if which != "inputs" else y)
+            try:
+                model = build(cell, seed, X, y, noise, mb)
+                with torch.no_grad():
+                    model(Xs)
+                    model.set_train_data(**({"inputs": Xn} if which != "targets" else {}), **({"targets": yn} if which != "inputs" else {}), strict=True)
+                    out = model(Xs)
+                    mean, cov = out.mean, out.covariance_matrix
+                ref_model = build(cell, seed, Xn, yn, noise, mb)
+                wm2, wc2, _ = reference(ref_model, Xn, yn, Xs, fam, noise_test)
+                ops += 2
+                states.append(util.digest([cell, "set_train_data", which]))
+                for name, a_, b_ in (("mean", mean, wm2), ("covariance", cov, wc2)):
+                    b_ = b_.expand(a_.shape) if a_.dim() >= b_.dim() else b_
+                    ok, msg = util.close(a_, b_, 1e-8, 1e-8)
+                    if not ok:
+                        fails.append({"sub": "new-train-data", "symptom": f"posterior {name} after set_train_data({which}) != closed form on the data the model now holds: err={msg}",
+                                      "detail": "", "features": f2})
+            except Exception as e:
+                fails.append({"sub": "new-train-data", "symptom": util.exc_str(e), "detail": "", "features": f2})
     # one representative failure per (sub, settings-size) to keep reports readable
     seen, kept = set(), []
     for f in fails:
